@@ -137,17 +137,21 @@ Definition flags_parse (ds : list dimcase) : bool :=
                     | Some s => match assoc s (dc_table d) with Some _ => true | None => false end
                     end) ds.
 
+(* the property's quantifier, as a predicate on the INPUT only: every dimension gets a value of
+   its enum (default / environment / flag), the document is a well-formed dimensioned document
+   (wfb decides WF: GConfRelProofs.wfb_decides_WF) and its root is a map (what yaml decodes a
+   configuration file to).  A root switch resolving to a non-map is inside: loading must fail. *)
 Definition in_domain (c : c03_case) : bool :=
   match build_dims (cc_env c) (cc_dims c) with
   | Err => false
   | Ok dims =>
       flags_parse (cc_dims c) &&
       wfb dims None (cc_doc c) &&
-      match cc_doc c with
-      | Mp _ => match resolve_spec dims (cc_doc c) with Ok (Mp _) | Err => true | _ => false end
-      | _ => false
-      end
+      match cc_doc c with Mp _ => true | _ => false end
   end.
+
+(* counted by the checks: how many cases the judge put outside the quantifier *)
+Definition c03_out_of_domain (c : c03_case) : nat := if in_domain c then 0 else 1.
 
 Definition oracle_ok (c : c03_case) : bool :=
   match cc_oracle c, build_dims (cc_env c) (cc_dims c) with
